@@ -132,13 +132,13 @@ chk("C05",
     "SSE1.shape: array length, every cell length, table size and every entry length are functions of the CONFIGURATION only. CT14.shape / ANSS16.shape: the whole index - "
     "number of level tables, entries per table (2^(t-j) resp. 2^(t+1-j) and 2^t for HT(S)), every label and value length - is a function of t = ceil(log2 N) only, for every database, key "
     "and tape; the proofs contain the capacity bounds the padding relies on (at most one chunk of 2^j <= |DB(w)| per keyword and level; a list kept at level j has more than 2^j/2 entries), "
-    "the second being what commit f3c43f7 repaired. Hypotheses (identifier size, dummy keywords fresh, labels distinct) are evaluated by the driver on every recorded run. DP17.arrays_shape: bucket count and byte length of every bucket of every level array are a function of N and the configuration (level list without repetition). SSE2.shape: exactly N entries, one per posting, addresses in the PRP's bit range - for every accepted configuration, key and valid database, no run-specific hypothesis. PiPtr.shape: the array has blocks+1 cells, every occupied cell is the ciphertext of a FULL identifier block, the dictionary is one entry per pointer block, all alike - a function of (blocks, pointer blocks) only (shape_indistinguishable). Pi2Lev.shape: the array has arrayLen cells, every occupied cell is the ciphertext of mark||block with a block of exactly B*idsize bytes (identifier and pointer blocks of both levels alike), the dictionary is one entry per keyword, all alike - small lists, pointer lists and second-level pointer lists provably fit the b*idsize block - a function of (keywords, array length) only. Remaining claim (DP17's hash table): the "
+    "the second being what commit f3c43f7 repaired. Hypotheses (identifier size, dummy keywords fresh, labels distinct) are evaluated by the driver on every recorded run. DP17.arrays_shape: bucket count and byte length of every bucket of every level array are a function of N and the configuration (level list without repetition). SSE2.shape: exactly N entries, one per posting, addresses in the PRP's bit range - for every accepted configuration, key and valid database, no run-specific hypothesis. PiPtr.shape: the array has blocks+1 cells, every occupied cell is the ciphertext of a FULL identifier block, the dictionary is one entry per pointer block, all alike - a function of (blocks, pointer blocks) only (shape_indistinguishable). Pi2Lev.shape: the array has arrayLen cells, every occupied cell is the ciphertext of mark||block with a block of exactly B*idsize bytes (identifier and pointer blocks of both levels alike), the dictionary is one entry per keyword, all alike - small lists, pointer lists and second-level pointer lists provably fit the b*idsize block - a function of (keywords, array length) only. DP17.ht_shape: the hash table has exactly N entries of digest-size keys and values. All nine schemes thus have a shape theorem; in addition the "
     "correspondence reproduces every cell INCLUDING padding cells (count and lengths) from the recorded draws, and the direct oracle builds, for "
     "every generated database, a second valid database with the same public size parameter (SSE1: none; SSE2/PiBas/DP17: N; PiPack: blocks; "
     "PiPtr: (blocks, pointer blocks); Pi2Lev: (keywords, array length); CT14/ANSS16: ceil(log2 N)) but other contents and list lengths, compares "
     "the shapes of the real indexes and checks length uniformity inside every padded table.",
     SCHEME_TRUST,
-    "Lean 4 proof (shape of the counter-chain index) + recorded-oracle correspondence incl. padding + shape comparison on pairs of real indexes",
+    "Lean 4 proof (index shape of all nine schemes) + recorded-oracle correspondence incl. padding + shape comparison on pairs of real indexes",
     "6/C05")
 chk("C06",
     "Props/C06.lean: every label-addressed table of PiBas, PiPack, PiPtr, Pi2Lev, CT14 and ANSS16 is `buildTable` of a pair list (proved by "
